@@ -49,6 +49,14 @@ extern "C" ssize_t __wrap_pread(int fd, void* buf, size_t n, off_t off) {
   }
   uint64_t lim = p.lim.next();
   size_t req = std::min<uint64_t>(n, lim);
+  if (p.eof_after != UINT64_MAX) {
+    // the file ends earlier than the size reported by fstat: positional reads see the same shortened file
+    if (static_cast<uint64_t>(off) >= p.eof_after) {
+      p.calls++;
+      return 0;
+    }
+    req = std::min<uint64_t>(req, p.eof_after - static_cast<uint64_t>(off));
+  }
   ssize_t r = __real_pread(fd, buf, req, off);
   p.calls++;
   if (r > 0) {
@@ -164,7 +172,14 @@ static void run_file_roundtrip(const Case& c) {
     }
     uint64_t calls = plan().calls, trunc = plan().truncated;
     plan().disarm();
-    VCHECK(calls >= 1 || size == 0, "harness-plan-not-applied", "the read plan did not see load_file's read (fd guess ", probe, ")");
+    if (!(calls >= 1 || size == 0)) {
+    // the helper did not go through the interposed read()/pread()/write() on the expected descriptor (another system call, another
+    // descriptor order): the fault was not delivered, so this case says nothing - counted, not judged
+    ctx().exclude("fault-plan-not-delivered");
+    VCHECK(!threw && back == d, "load-file-roundtrip", "load_file(save_file(d)) != d: ", threw ? std::string("it threw") : first_diff(back, d));
+    ::unlink(path.c_str());
+    return;
+  }
     if (!threw) VCHECK(back == d, "load-file-short-read", "load_file returned without throwing after a short read: ", first_diff(back, d));
     if (trunc == 0) VCHECK(!threw, "load-file-spurious-throw", "load_file threw although read() delivered everything at once");
     note_plan_nontrivial(calls + 1, trunc, size);
@@ -226,7 +241,12 @@ static void run_save_short_write(const Case& c) {
   }
   uint64_t calls = write_plan().calls, trunc = write_plan().truncated, faulted = write_plan().faulted;
   write_plan().disarm();
-  VCHECK(calls >= 1 || size == 0, "harness-plan-not-applied", "the write plan did not see save_file's write (fd guess ", probe, ")");
+  if (!(calls >= 1 || size == 0)) {
+    // the helper did not go through the interposed read()/pread()/write() on the expected descriptor (another system call, another
+    // descriptor order): the fault was not delivered, so this case says nothing - counted, not judged
+    ctx().exclude("fault-plan-not-delivered");
+    return;
+  }
   const char* fault = faulted ? "failed-write" : trunc ? "short-write" : "whole-write";
   if (!threw) {
     std::string on_disk;
@@ -280,7 +300,12 @@ static void run_load_shrunk(const Case& c) {
   }
   uint64_t calls = plan().calls;
   plan().disarm();
-  VCHECK(calls >= 1, "harness-plan-not-applied", "the read plan did not see load_file's read");
+  if (!(calls >= 1)) {
+    // the helper did not go through the interposed read()/pread()/write() on the expected descriptor (another system call, another
+    // descriptor order): the fault was not delivered, so this case says nothing - counted, not judged
+    ctx().exclude("fault-plan-not-delivered");
+    return;
+  }
   if (!threw) {
     VCHECK(back.size() <= eof, "load-file-padded", "load_file returned ", back.size(), " bytes although the file ended after ", eof, " (stat size ", size, "): ", first_diff(back, d.substr(0, eof)));
     VCHECK(back == d.substr(0, eof), "load-file-truncated-silently", "load_file returned ", back.size(), " of the ", eof, " bytes delivered before end of file");
@@ -662,7 +687,12 @@ static void run_read_fault(const Case& c) {
     faulted = plan().faulted, calls = plan().calls, trunc = plan().truncated;
     uint64_t delivered = plan().delivered;
     plan().disarm();
-    VCHECK(calls >= 1, "harness-plan-not-applied", "the read plan did not see load_file's read (fd guess ", probe, ")");
+    if (!(calls >= 1)) {
+    // the helper did not go through the interposed read()/pread()/write() on the expected descriptor (another system call, another
+    // descriptor order): the fault was not delivered, so this case says nothing - counted, not judged
+    ctx().exclude("fault-plan-not-delivered");
+    return;
+  }
     if (any_throw) {
       VCHECK(faulted > 0 || trunc > 0, nm + "-spurious-throw", "load_file threw although read() delivered everything at once");
     } else {
